@@ -64,6 +64,12 @@ type Receiver struct {
 	Bend     map[int]int
 }
 
+// PMsg is a predicted message; Block > 0 groups the messages of one panic burst (order free inside).
+type PMsg struct {
+	Msg
+	Block int
+}
+
 func NewReceiver() *Receiver {
 	return &Receiver{Sounding: map[Pair]bool{}, CC: map[[2]int]int{}, Bend: map[int]int{}}
 }
@@ -176,6 +182,10 @@ type Dev struct {
 	// per-step expectations.
 	Focus   string
 	Foreign []string
+	// predict mode (burst runs): the model does not compare, it records what it expects
+	predict     bool
+	Predicted   []PMsg
+	panicBlocks int
 	held     map[heldKey]*Pair // nil pointer = the press was silent
 	Holders  map[Pair]int
 	everMany map[Pair]bool
@@ -434,6 +444,16 @@ func (m *Dev) notePress(hk heldKey, kd *KeyDesc, got []Msg) *Violation {
 	}
 	m.held[hk] = &pr
 	m.Holders[pr]++
+	if m.predict {
+		for _, k := range want {
+			x := Msg{Kind: byte(k), Ch: c, A: p}
+			if k == 'N' {
+				x.B = vel
+			}
+			m.Predicted = append(m.Predicted, PMsg{Msg: x})
+		}
+		return nil
+	}
 	if kinds(got) != want {
 		props := []string{"C03"}
 		if n == 0 {
@@ -483,6 +503,12 @@ func (m *Dev) noteRelease(hk heldKey, got []Msg) *Violation {
 	want := "F"
 	if m.D.Mode != "off" && n != 1 {
 		want = ""
+	}
+	if m.predict {
+		if want == "F" {
+			m.Predicted = append(m.Predicted, PMsg{Msg: Msg{Kind: 'F', Ch: pr.Ch, A: pr.Pitch}})
+		}
+		return nil
 	}
 	if kinds(got) != want {
 		props := []string{"C02"}
@@ -582,6 +608,14 @@ func (m *Dev) actionKey(a string, press bool, got []Msg) *Violation {
 func (m *Dev) panicStep(got []Msg) *Violation {
 	m.PanicSeen = true
 	m.probe("panic")
+	if m.predict {
+		m.panicBlocks++
+		m.Predicted = append(m.Predicted, PMsg{Msg: Msg{Kind: 'C', Ch: m.Ch, A: 123}, Block: m.panicBlocks})
+		for n := 0; n < 128; n++ {
+			m.Predicted = append(m.Predicted, PMsg{Msg: Msg{Kind: 'F', Ch: m.Ch, A: n}, Block: m.panicBlocks})
+		}
+		return nil
+	}
 	seenCC := 0
 	offs := map[int]int{}
 	for _, g := range got {
@@ -623,4 +657,94 @@ func (m *Dev) Unplug(got []Msg) *Violation {
 		return viol("stuck_note_after_disconnect", fmt.Sprintf("after disconnect the receiver still sounds %v (clean-up emitted %s)", m.Recv.SoundingList(), fmtMsgs(got)), "C01")
 	}
 	return nil
+}
+
+// Predict feeds a key event to the model in predict mode: the state advances exactly as in Step, the
+// expected messages are appended to Predicted instead of being compared. Only key events are supported.
+func (m *Dev) Predict(ev Event) {
+	m.predict = true
+	if ev.Kind == "key" {
+		if ev.Value == 1 {
+			m.phys[heldKey{ev.Handler, ev.Code}] = true
+		} else {
+			delete(m.phys, heldKey{ev.Handler, ev.Code})
+		}
+		m.key(ev, nil, m.predictSignals(ev))
+	}
+	m.predict = false
+}
+
+// predictSignals answers what key() wants to hear about signals so that the exit clause stays quiet.
+func (m *Dev) predictSignals(ev Event) int {
+	if ev.Value != 1 || len(m.D.Exit) == 0 {
+		return 0
+	}
+	for _, k := range m.D.Exit {
+		if k.Code != ev.Code && !m.Down[k.Code] {
+			return 0
+		}
+	}
+	for _, k := range m.D.Exit {
+		if k.Code == ev.Code {
+			return 1
+		}
+	}
+	if m.ExitHeld() {
+		return 1
+	}
+	return 0
+}
+
+// CompareStream checks an actual message stream against the predicted one: equal in order, except that
+// the messages of one panic burst may come in any order among themselves.
+func CompareStream(pred []PMsg, got []Msg) (int, string) {
+	i := 0
+	for i < len(pred) {
+		if pred[i].Block == 0 {
+			if i >= len(got) {
+				return i, fmt.Sprintf("stream ends after %d messages, expected %s next", len(got), pred[i].Msg)
+			}
+			if !sameMsg(pred[i].Msg, got[i]) {
+				return i, fmt.Sprintf("message %d: expected %s, got %s", i, pred[i].Msg, got[i])
+			}
+			i++
+			continue
+		}
+		j := i
+		for j < len(pred) && pred[j].Block == pred[i].Block {
+			j++
+		}
+		if j > len(got) {
+			return i, fmt.Sprintf("stream ends after %d messages inside a panic burst (expected %d)", len(got), j)
+		}
+		want := map[[4]int]int{}
+		for _, pm := range pred[i:j] {
+			want[[4]int{int(pm.Kind), pm.Ch, pm.A, pm.B}]++
+		}
+		for k := i; k < j; k++ {
+			key := [4]int{int(got[k].Kind), got[k].Ch, got[k].A, got[k].B}
+			if got[k].Kind == 'F' {
+				key[3] = 0
+			}
+			if want[key] == 0 {
+				return k, fmt.Sprintf("message %d: %s does not belong to the panic burst expected at messages %d..%d", k, got[k], i, j-1)
+			}
+			want[key]--
+		}
+		i = j
+	}
+	if len(got) > len(pred) {
+		return len(pred), fmt.Sprintf("%d unexpected trailing messages, first %s", len(got)-len(pred), got[len(pred)])
+	}
+	return -1, ""
+}
+
+func sameMsg(a, b Msg) bool {
+	if a.Kind != b.Kind || a.Ch != b.Ch || a.A != b.A {
+		return false
+	}
+	if a.Kind == 'N' || a.Kind == 'C' {
+		return a.B == b.B
+	}
+	return true
 }
